@@ -136,16 +136,19 @@ def concatV (a b : Val) : Except Err Val :=
   | _, _ => .error .type
 
 /-! ## LIKE: declarative specification (`%` any string, `_` exactly one character) -/
+def tails {α : Type} : List α → List (List α)
+  | [] => [[]]
+  | x :: xs => (x :: xs) :: tails xs
+
+/-- pattern-directed definition: `%` may consume any prefix of the text, `_` exactly one
+character, any other pattern character itself -/
 def likeSpec : List Char → List Char → Bool
-  | [], [] => true
-  | [], _ :: _ => false
-  | '%' :: p, [] => likeSpec p []
-  | '%' :: p, c :: s => likeSpec p (c :: s) || likeSpec ('%' :: p) s
-  | '_' :: _, [] => false
-  | '_' :: p, _ :: s => likeSpec p s
-  | _ :: _, [] => false
-  | x :: p, c :: s => x == c && likeSpec p s
-termination_by p s => p.length + s.length
+  | [], s => s.isEmpty
+  | c :: p, s =>
+    if c = '%' then (tails s).any (fun s' => likeSpec p s')
+    else match s with
+      | [] => false
+      | x :: s' => (c = '_' || c = x) && likeSpec p s'
 
 /-! ## expressions -/
 inductive Expr where
